@@ -951,3 +951,333 @@ pub fn selector_groups<S: Src, const G: u8>(s: &mut S) {
     ck!(s, n == wn, "a latest-per-key selection yields exactly one entry per key");
     ck!(s, out == want, "each yielded entry carries the greatest timestamp among the entries of its key, in key order");
 }
+
+// ---------------------------------------------------------------------------------------------
+// C18 native witness: derived tables deleted with plain redb are rebuilt exactly at the next open;
+// reopening an up-to-date database changes nothing.  (Real redb, file-backed; not compiled by Kani.)
+// ---------------------------------------------------------------------------------------------
+#[cfg(not(kani))]
+pub mod witness_c18 {
+    use super::super::tables::{LATEST_PER_AUTHOR_TABLE, RECORDS_BY_KEY_TABLE};
+    use super::Store;
+    use crate::store::{Query, SortBy, SortDirection};
+    use crate::sync::{ContentStatus, Entry, Record, RecordIdentifier, SignedEntry};
+    use crate::verif_incrate::witness::block_on;
+    use crate::{Author, NamespaceId, NamespaceSecret};
+    use iroh_blobs::Hash;
+
+    type Head = (Vec<u8>, u64, Vec<u8>);
+    type Row = (Vec<u8>, Vec<u8>, u64, Vec<u8>);
+
+    #[derive(PartialEq, Debug, Clone)]
+    struct Answers {
+        heads: Vec<Vec<Head>>,
+        by_key: Vec<Vec<Row>>,
+        latest_per_key: Vec<Vec<Row>>,
+        by_author: Vec<Vec<Row>>,
+    }
+
+    fn answers(store: &mut Store, docs: &[NamespaceId]) -> Answers {
+        let mut a = Answers { heads: vec![], by_key: vec![], latest_per_key: vec![], by_author: vec![] };
+        for d in docs {
+            let mut h: Vec<Head> = store
+                .get_latest_for_each_author(*d)
+                .unwrap()
+                .map(|r| r.map(|(a, t, k)| (a.as_bytes().to_vec(), t, k)).unwrap())
+                .collect();
+            h.sort();
+            a.heads.push(h);
+            let row = |e: SignedEntry| (e.author().as_bytes().to_vec(), e.key().to_vec(), e.timestamp(), e.content_hash().as_bytes().to_vec());
+            let q = Query::all().include_empty().sort_by(SortBy::KeyAuthor, SortDirection::Asc).build();
+            a.by_key.push(store.get_many(*d, q).unwrap().map(|e| row(e.unwrap())).collect());
+            let q = Query::single_latest_per_key().include_empty().build();
+            a.latest_per_key.push(store.get_many(*d, q).unwrap().map(|e| row(e.unwrap())).collect());
+            let q = Query::all().include_empty().sort_by(SortBy::AuthorKey, SortDirection::Asc).build();
+            a.by_author.push(store.get_many(*d, q).unwrap().map(|e| row(e.unwrap())).collect());
+        }
+        a
+    }
+
+    /// heads equal up to the choice of key among entries that tie on the greatest timestamp
+    fn heads_equivalent(reference: &Answers, got: &Answers) -> bool {
+        if reference.heads.len() != got.heads.len() {
+            return false;
+        }
+        for (d, (r, g)) in reference.heads.iter().zip(got.heads.iter()).enumerate() {
+            let strip = |v: &Vec<Head>| v.iter().map(|(a, t, _)| (a.clone(), *t)).collect::<Vec<_>>();
+            if strip(r) != strip(g) {
+                return false;
+            }
+            for (a, t, k) in g {
+                if !reference.by_author[d].iter().any(|(ra, rk, rt, _)| ra == a && rk == k && rt == t) {
+                    return false;
+                }
+            }
+        }
+        true
+    }
+
+    pub fn run() -> bool {
+        let dir = std::env::temp_dir().join(format!("verif-c18-{}", std::process::id()));
+        let _ = std::fs::remove_dir_all(&dir);
+        std::fs::create_dir_all(&dir).unwrap();
+        let bad = run_in(&dir);
+        let _ = std::fs::remove_dir_all(&dir);
+        bad
+    }
+
+    fn run_in(dir: &std::path::Path) -> bool {
+        let base = dir.join("base.redb");
+        let ns1 = NamespaceSecret::from_bytes(&[21u8; 32]);
+        let ns2 = NamespaceSecret::from_bytes(&[22u8; 32]);
+        let aa = Author::from_bytes(&[31u8; 32]);
+        let ab = Author::from_bytes(&[32u8; 32]);
+        let docs = [ns1.id(), ns2.id()];
+        let now = std::time::SystemTime::now().duration_since(std::time::UNIX_EPOCH).unwrap().as_micros() as u64;
+        let t = now - 1_000_000;
+        let reference = {
+            let mut store = Store::new_impl(redb::Database::create(&base).unwrap()).unwrap();
+            // (doc, author, key, timestamp, deletion marker?)   written in this order
+            let writes: Vec<(&NamespaceSecret, &Author, &[u8], u64, bool)> = vec![
+                (&ns1, &aa, b"b", t, false),
+                (&ns1, &aa, b"a", t, false), // ties with "b" on the timestamp
+                (&ns1, &aa, b"c", t - 5, false),
+                (&ns1, &ab, b"a", t - 3, false),
+                (&ns1, &ab, b"d", t + 1, true), // deletion marker is the newest of author B
+                (&ns2, &aa, b"z", t - 10, false),
+                (&ns2, &ab, b"", t - 7, false), // empty key
+                (&ns2, &ab, b"\xff\xff", t - 6, false),
+            ];
+            for ns in [&ns1, &ns2] {
+                let _ = store.new_replica(ns.clone()).unwrap();
+            }
+            for (ns, author, key, ts, del) in writes {
+                let mut replica = store.open_replica(&ns.id()).unwrap();
+                let id = RecordIdentifier::new(ns.id(), author.id(), key);
+                let rec = if del { Record::empty(ts) } else { Record::new(Hash::new([key, b"!".as_slice()].concat()), 1 + key.len() as u64, ts) };
+                let e = SignedEntry::from_entry(Entry::new(id, rec), ns, author);
+                block_on(replica.insert_remote_entry(e, [9u8; 32], ContentStatus::Complete)).unwrap();
+                drop(replica);
+                store.close_replica(ns.id());
+            }
+            store.flush().unwrap();
+            let a = answers(&mut store, &docs);
+            store.flush().unwrap();
+            a
+        };
+        let mut bad = false;
+        if reference.by_author.iter().map(|v| v.len()).sum::<usize>() != 8 {
+            eprintln!("c18: setup stored {:?} entries, expected 8 (deletion marker at 'd' replaces nothing)", reference.by_author.iter().map(|v| v.len()).collect::<Vec<_>>());
+        }
+        for (name, drop_heads, drop_index) in [("none", false, false), ("heads", true, false), ("by-key index", false, true), ("both", true, true)] {
+            let path = dir.join(format!("{}.redb", name.replace(' ', "_")));
+            std::fs::copy(&base, &path).unwrap();
+            {
+                let db = redb::Database::create(&path).unwrap();
+                let tx = db.begin_write().unwrap();
+                if drop_heads {
+                    tx.delete_table(LATEST_PER_AUTHOR_TABLE).unwrap();
+                }
+                if drop_index {
+                    tx.delete_table(RECORDS_BY_KEY_TABLE).unwrap();
+                }
+                tx.commit().unwrap();
+            }
+            let first = {
+                let mut store = match Store::new_impl(redb::Database::create(&path).unwrap()) {
+                    Ok(s) => s,
+                    Err(e) => {
+                        eprintln!("c18[{name} removed]: reopening failed: {e}");
+                        bad = true;
+                        continue;
+                    }
+                };
+                let a = answers(&mut store, &docs);
+                store.flush().unwrap();
+                a
+            };
+            let exact = first.by_key == reference.by_key && first.latest_per_key == reference.latest_per_key && first.by_author == reference.by_author;
+            let heads_ok = if drop_heads { heads_equivalent(&reference, &first) } else { first.heads == reference.heads };
+            if !exact || !heads_ok {
+                eprintln!("c18[{name} removed]: after reopening, queries equal: {exact}, heads as maintained: {heads_ok}\n  reference heads {:?}\n  rebuilt heads   {:?}\n  reference by-key {:?}\n  rebuilt by-key   {:?}",
+                    reference.heads, first.heads, reference.by_key.iter().map(|v| v.len()).collect::<Vec<_>>(), first.by_key.iter().map(|v| v.len()).collect::<Vec<_>>());
+                bad = true;
+            }
+            // any further reopen is a no-op
+            for round in 0..2 {
+                let mut store = Store::new_impl(redb::Database::create(&path).unwrap()).unwrap();
+                let again = answers(&mut store, &docs);
+                store.flush().unwrap();
+                if again != first {
+                    eprintln!("c18[{name} removed]: reopen #{} of the up-to-date database changed the answers\n  before {:?}\n  after  {:?}", round + 2, first.heads, again.heads);
+                    bad = true;
+                }
+            }
+        }
+        bad
+    }
+}
+
+// ---------------------------------------------------------------------------------------------
+// C06 hook + native witness.  `commit_age::age(w)` runs (feature `verif` only) right before the
+// age test of `Store::tables` / `Store::modify`: arm(n) makes the n-th such test from now see a
+// transaction older than MAX_COMMIT_DELAY once, which emulates a slow or suspended process.
+// ---------------------------------------------------------------------------------------------
+pub mod commit_age {
+    use std::sync::atomic::{AtomicI64, Ordering};
+    static COUNTDOWN: AtomicI64 = AtomicI64::new(-1);
+    static FIRED: AtomicI64 = AtomicI64::new(0);
+    /// the n-th (0-based) age test from now reports "too old"; negative: never
+    pub fn arm(n: i64) {
+        FIRED.store(0, Ordering::SeqCst);
+        COUNTDOWN.store(n, Ordering::SeqCst);
+    }
+    pub fn fired() -> bool {
+        FIRED.load(Ordering::SeqCst) != 0
+    }
+    /// the hook in `Store::tables` / `Store::modify`: when due, the open transaction looks older
+    /// than MAX_COMMIT_DELAY (its start time is moved back)
+    pub fn age(mut w: super::super::tables::TransactionAndTables) -> super::super::tables::TransactionAndTables {
+        if due() {
+            if let Some(t) = w.since.checked_sub(crate::actor::MAX_COMMIT_DELAY + std::time::Duration::from_millis(50)) {
+                w.since = t;
+            }
+        }
+        w
+    }
+    pub fn due() -> bool {
+        let v = COUNTDOWN.load(Ordering::SeqCst);
+        if v < 0 {
+            return false;
+        }
+        COUNTDOWN.store(v - 1, Ordering::SeqCst);
+        if v == 0 {
+            FIRED.store(1, Ordering::SeqCst);
+        }
+        v == 0
+    }
+}
+
+#[cfg(not(kani))]
+pub mod witness_c06 {
+    //! Crash images: a durable state must be a state between two complete operations.  The store
+    //! holds "ab" and "ac" (flushed).  Then "a" is inserted with a newer timestamp, which supersedes
+    //! both.  For every position n of a forced age-commit the database FILE is copied without flush
+    //! right after the insert returned (= the image a kill at that instant leaves) and reopened:
+    //! it must show {ab, ac} or {a}, never the pruned store without "a".
+    use super::commit_age;
+    use super::Store;
+    use crate::store::Query;
+    use crate::sync::{ContentStatus, Entry, Record, RecordIdentifier, SignedEntry};
+    use crate::verif_incrate::witness::block_on;
+    use crate::{Author, NamespaceSecret};
+    use iroh_blobs::Hash;
+
+    fn keys(store: &mut Store, ns: &NamespaceSecret) -> Vec<Vec<u8>> {
+        let q = Query::all().include_empty().build();
+        let mut v: Vec<Vec<u8>> = store.get_many(ns.id(), q).unwrap().map(|e| e.unwrap().key().to_vec()).collect();
+        v.sort();
+        v
+    }
+
+    fn put(store: &mut Store, ns: &NamespaceSecret, author: &Author, key: &[u8], ts: u64) {
+        let mut replica = store.open_replica(&ns.id()).unwrap();
+        let id = RecordIdentifier::new(ns.id(), author.id(), key);
+        let e = SignedEntry::from_entry(Entry::new(id, Record::new(Hash::new(key), 1 + key.len() as u64, ts)), ns, author);
+        block_on(replica.insert_remote_entry(e, [9u8; 32], ContentStatus::Complete)).unwrap();
+        drop(replica);
+        store.close_replica(ns.id());
+    }
+
+    pub fn run() -> bool {
+        let dir = std::env::temp_dir().join(format!("verif-c06-{}", std::process::id()));
+        let _ = std::fs::remove_dir_all(&dir);
+        std::fs::create_dir_all(&dir).unwrap();
+        let d2 = dir.clone();
+        let bad = match std::panic::catch_unwind(move || run_in(&d2)) {
+            Ok(b) => b,
+            Err(_) => {
+                eprintln!("c06: the scenario could not be completed on the reopened store (see the panic above): acknowledged data is not there");
+                true
+            }
+        };
+        commit_age::arm(-1);
+        let _ = std::fs::remove_dir_all(&dir);
+        bad
+    }
+
+    fn run_in(dir: &std::path::Path) -> bool {
+        let ns = NamespaceSecret::from_bytes(&[41u8; 32]);
+        let author = Author::from_bytes(&[42u8; 32]);
+        let now = std::time::SystemTime::now().duration_since(std::time::UNIX_EPOCH).unwrap().as_micros() as u64;
+        let t = now - 1_000_000;
+        let base = dir.join("base.redb");
+        {
+            let mut store = Store::new_impl(redb::Database::create(&base).unwrap()).unwrap();
+            let _ = store.new_replica(ns.clone()).unwrap();
+            store.close_replica(ns.id());
+            put(&mut store, &ns, &author, b"ab", t);
+            put(&mut store, &ns, &author, b"ac", t);
+            store.flush().unwrap();
+        }
+        let before: Vec<Vec<u8>> = vec![b"ab".to_vec(), b"ac".to_vec()];
+        let after: Vec<Vec<u8>> = vec![b"a".to_vec()];
+        let mut bad = false;
+        {
+            // everything acknowledged before the flush is there after the process went away
+            let mut store = Store::new_impl(redb::Database::create(&base).unwrap()).unwrap();
+            let seen = if store.load_replica_info(&ns.id()).is_ok() { keys(&mut store, &ns) } else { vec![b"<document missing>".to_vec()] };
+            if seen != before {
+                eprintln!("c06: after flush + reopen the store shows {:?}, expected [ab, ac]", seen.iter().map(|k| String::from_utf8_lossy(k).to_string()).collect::<Vec<_>>());
+                return true;
+            }
+        }
+        let mut fired_any = false;
+        for n in 0..12i64 {
+            let live = dir.join(format!("live-{n}.redb"));
+            let image = dir.join(format!("image-{n}.redb"));
+            std::fs::copy(&base, &live).unwrap();
+            let fired;
+            {
+                let mut store = Store::new_impl(redb::Database::create(&live).unwrap()).unwrap();
+                // an acknowledged write opens the shared write transaction
+                store.register_useful_peer(ns.id(), [7u8; 32]).unwrap();
+                commit_age::arm(n);
+                put(&mut store, &ns, &author, b"a", t + 1);
+                fired = commit_age::fired();
+                commit_age::arm(-1);
+                // the process dies here: whatever is committed in the file is what survives
+                std::fs::copy(&live, &image).unwrap();
+                let now_live = keys(&mut store, &ns);
+                if now_live != after {
+                    eprintln!("c06[n={n}]: live store after the insert shows {:?}", now_live.iter().map(|k| String::from_utf8_lossy(k).to_string()).collect::<Vec<_>>());
+                    bad = true;
+                }
+            }
+            fired_any |= fired;
+            let mut reopened = match Store::new_impl(redb::Database::create(&image).unwrap()) {
+                Ok(s) => s,
+                Err(e) => {
+                    eprintln!("c06[n={n}]: the crash image does not open: {e}");
+                    bad = true;
+                    continue;
+                }
+            };
+            let seen = keys(&mut reopened, &ns);
+            if seen != before && seen != after {
+                eprintln!(
+                    "c06[forced age-commit at access {n}, fired: {fired}]: crash image shows keys {:?}: neither the state before the insert {{ab, ac}} nor after it {{a}}",
+                    seen.iter().map(|k| String::from_utf8_lossy(k).to_string()).collect::<Vec<_>>()
+                );
+                bad = true;
+            }
+            drop(reopened);
+            let _ = std::fs::remove_file(&live);
+            let _ = std::fs::remove_file(&image);
+        }
+        if !fired_any {
+            eprintln!("c06: the age hook never fired (hook not compiled in?)");
+        }
+        bad
+    }
+}
